@@ -9,6 +9,8 @@ import (
 	"encoding/json"
 	"fmt"
 	"iter"
+	"math/rand/v2"
+	"slices"
 	"sort"
 	"strings"
 	"sync"
@@ -29,6 +31,11 @@ type qMeta struct {
 	paused  chan struct{}
 	release chan struct{}
 	honour  bool // stop iterating when ctx is done
+	// order: how a file's DataBlocks are yielded: "" as stored (ascending row data offset), "reverse",
+	// "shuffle" (a permutation drawn from orderSeed and the file's position). The engine promises to order
+	// the blocks itself; a MetaStore owes it no order.
+	order     string
+	orderSeed uint64
 }
 
 func newQMeta(inner bs.MetaStore) *qMeta {
@@ -40,6 +47,7 @@ var errIterInjected = fmt.Errorf("injected iterator failure: %w", errInjected)
 func (m *qMeta) GetMaybeFilesForQuery(ctx context.Context, q *bs.QueryPrefilter) iter.Seq2[bs.MaybeFile, error] {
 	m.mu.Lock()
 	failAt, pauseAt, paused, release, honour := m.failAt, m.pauseAt, m.paused, m.release, m.honour
+	order, orderSeed := m.order, m.orderSeed
 	m.mu.Unlock()
 	return func(yield func(bs.MaybeFile, error) bool) {
 		m.active.Add(1)
@@ -62,6 +70,16 @@ func (m *qMeta) GetMaybeFilesForQuery(ctx context.Context, q *bs.QueryPrefilter)
 			if n == failAt {
 				yield(bs.MaybeFile{}, errIterInjected)
 				return
+			}
+			if err == nil && order != "" && len(f.Metadata.DataBlocks) > 1 {
+				blocks := slices.Clone(f.Metadata.DataBlocks) // the slice belongs to the inner store
+				if order == "reverse" {
+					slices.Reverse(blocks)
+				} else {
+					rng := rand.New(rand.NewPCG(orderSeed, uint64(n)))
+					rng.Shuffle(len(blocks), func(i, j int) { blocks[i], blocks[j] = blocks[j], blocks[i] })
+				}
+				f.Metadata.DataBlocks = blocks
 			}
 			if !yield(f, err) {
 				return
@@ -149,13 +167,26 @@ func (c *Ctx) genSysQuery() sysQuery {
 	return sq
 }
 
+// qSaturationFiles: one-block files a query absorbs before its file stage blocks behind a consumer that
+// takes nothing: the row buffer, one batch in the hands of each block worker, the block job buffer, one job
+// in the hands of each file worker, the file job buffer.
+func qSaturationFiles(maxQC int) int {
+	return bs.VerifQueryRowBatchBuffer + maxQC + bs.VerifQueryJobBuffer + maxQC + bs.VerifQueryFileJobBuffer
+}
+
 // buildWorld ingests nFiles flushes; every flush becomes one file with one block per
-// (partition, row group).
-func buildWorld(c *Ctx, maxQC int) *sysWorld {
+// (partition, row group). shape: "" random small worlds; "manyfiles" more one-block files than a query's
+// pipeline can absorb; "bigfilter" files whose block filter region is larger than the chunk one read may cover.
+func buildWorld(c *Ctx, maxQC int, shape string) *sysWorld {
 	ctx := context.Background()
 	cfg := bs.DefaultBloomSearchEngineConfig()
 	cfg.MaxQueryConcurrency = maxQC
 	cfg.MaxRowGroupRows = []int{8, 40, 100, 200}[c.intn(4)]
+	if shape == "bigfilter" {
+		// filters are sized from the distinct entries they cover at the configured rate: a tiny rate makes
+		// ~10^4 tokens per block cost more than a MiB of filter section
+		cfg.BloomFalsePositiveRate = 1e-100
+	}
 	cfg.MaxBufferedRows = 1 << 20
 	cfg.MaxBufferedBytes = 1 << 30
 	cfg.MaxBufferedTime = time.Hour
@@ -172,23 +203,55 @@ func buildWorld(c *Ctx, maxQC int) *sysWorld {
 	w.eng = eng
 	eng.Start()
 	nFiles := 1 + c.intn(5)
+	switch shape {
+	case "manyfiles":
+		nFiles = qSaturationFiles(maxQC) + 3 + c.intn(8)
+	case "bigfilter":
+		nFiles = 1 + c.intn(2)
+	}
 	id := int64(1000)
 	rowsByID := map[int64]sysRow{}
+	parts := []string{"pa", "pb", "pc", "pd", "pe", "pf", "pg", "ph"}
 	for f := 0; f < nFiles; f++ {
 		nParts := 1 + c.intn(3)
+		if shape == "manyfiles" {
+			nParts = 1
+		}
+		if shape == "bigfilter" {
+			nParts = 6 + c.intn(3)
+			if f > 0 {
+				nParts = 2 + c.intn(3)
+			}
+		}
 		var batch []map[string]any
 		for p := 0; p < nParts; p++ {
-			part := []string{"pa", "pb", "pc"}[p]
+			part := parts[p]
 			n := 1 + c.intn(cfg.MaxRowGroupRows*2+cfg.MaxRowGroupRows/2)
 			if c.chance(0.25) {
 				n = 100 + c.intn(300)
+			}
+			if shape == "manyfiles" {
+				n = 1 + c.intn(3) // one small block per file
+			}
+			if shape == "bigfilter" {
+				n = 1 + c.intn(3) // one block per partition
 			}
 			tags := 1 + c.intn(4) // how many distinct tags this partition of this file uses
 			for i := 0; i < n; i++ {
 				r := sysRow{id: id, tag: fmt.Sprintf("t%d", c.intn(tags)), p: part}
 				id++
 				rowsByID[r.id] = r
-				batch = append(batch, map[string]any{"id": r.id, "tag": r.tag, "p": r.p})
+				row := map[string]any{"id": r.id, "tag": r.tag, "p": r.p}
+				if shape == "bigfilter" && i == 0 {
+					// distinct tokens of this block only: they size the block's token and field:token filters
+					nTok := 8000 + c.intn(6000)
+					var sb strings.Builder
+					for k := 0; k < nTok; k++ {
+						fmt.Fprintf(&sb, "w%dx%dx%d ", f, p, k)
+					}
+					row["blob"] = sb.String()
+				}
+				batch = append(batch, row)
 			}
 		}
 		done := make(chan error, 1)
